@@ -86,7 +86,7 @@ def run(ctx) -> None:
     root = "cli._update"
     ip = ctx.interproc(IMPORT_EXIT)
     reach_fns = effects.reachable_functions([root])
-    ctx.visit(root, "cli._try_update", "vcs.commit", "vcs.assert_not_dirty", "hooks.run")
+    ctx.visit(root, "vcs.commit", "vcs.assert_not_dirty", "hooks.run")
 
     # ---------------------------------------------------------------- collect step sites
     by_step: T.Dict[str, T.List[T.Any]] = {}
@@ -215,11 +215,12 @@ def run(ctx) -> None:
                   f"extracted: {got.drop_unused().to_dnf(6)} ; specified: {spec[st].drop_unused().to_dnf(6)}",
                   loc=by_step[st][0].loc, witness=wit, path=[s.loc for s in by_step[st]])
     # the entry chain update -> _try_update -> _update is unconditional below the dry test (R4)
-    tu = prog.function("cli._try_update")
-    c = shapes.find_calls(prog, tu, "cli._update")
-    ctx.require(len(c) == 1, "_try_update: expected one _update call")
-    r = PathCond(cfgs.get(tu.fq)).reach(cfgs.get(tu.fq).node_containing(c[0]))
-    ctx.check("R2", r.is_true(), "_try_update calls _update unconditionally", "cli._try_update: _update is called conditionally", r.to_dnf(), loc=tu.loc(c[0]))
+    if prog.has_function("cli._try_update"):
+        tu = prog.function("cli._try_update")
+        c = shapes.find_calls(prog, tu, "cli._update")
+        ctx.require(len(c) == 1, "_try_update: expected one _update call")
+        r = PathCond(cfgs.get(tu.fq)).reach(cfgs.get(tu.fq).node_containing(c[0]))
+        ctx.check("R2", r.is_true(), "_try_update calls _update unconditionally", "cli._try_update: _update is called conditionally", r.to_dnf(), loc=tu.loc(c[0]))
 
     # ---------------------------------------------------------------- R1 ordering
     order = {"dirty-check": 0, "rewrite": 1, "pre-hook": 2, "stage": 3, "commit": 4, "post-hook": 5, "tag": 6, "push_tag": 7, "push_plain": 7}
@@ -288,7 +289,7 @@ def run(ctx) -> None:
               f"`{unparse(procs[0].node)[:80]}`: with {nm} a non-zero exit status is ignored and later steps still run", loc=callfn.loc(procs[0].node))
     # the CFG node must not be wrapped in a swallowing handler anywhere on the chain
     n_h = 0
-    for fq in sorted(reach_fns | {"cli._try_update"}):
+    for fq in sorted(reach_fns | ({"cli._try_update"} if prog.has_function("cli._try_update") else {"cli.update"})):
         fn = prog.function(fq)
         cfg = cfgs.get(fq)
         neff = None
